@@ -106,12 +106,12 @@ class Monitor(object):
             if o[0] == 'lose':
                 closed_now.add(o[1])
             elif o[0] == 'write' and (o[1] in self.closed_by_us or o[1] in closed_now):
-                for pr in ('C10', 'C04'):
+                for pr in ('C10', 'C04', 'C01'):
                     self.fail(pr, 'a message was written to connection %d after the agent had closed it' % o[1], 'activity-after-close')
                 break
             elif o[0] == 'handler' and o[1] in REPORTS and len(o) > 2:
                 if o[2] in self.closed_by_us:
-                    for pr in ('C10', 'C04'):
+                    for pr in ('C10', 'C04', 'C01'):
                         self.fail(pr, 'a message received on connection %d was reported after the agent had closed it' % o[2],
                                   'activity-after-close')
                     break
@@ -120,7 +120,7 @@ class Monitor(object):
                     # message from behind it in the same segment
                     late_reports[o[2]] = late_reports.get(o[2], 0) + 1
                     if late_reports[o[2]] > 1:
-                        for pr in ('C10', 'C04'):
+                        for pr in ('C10', 'C04', 'C01'):
                             self.fail(pr, 'messages behind the one that made the agent close connection %d were still reported' % o[2],
                                       'activity-after-close')
                         break
